@@ -188,3 +188,15 @@ Theorem C04_solver_model_decide_no_panic_by_invariants : forall U P A a_ge (st :
   SInv U P A st -> KInv A st -> CInv A st -> Done A st -> s_born st = [] -> Rooted (ps_trail (s_ps st)) ->
   decide U (a_ge (s_act st)) (s_db st) (tr_lits st) <> None.
 Proof. exact decide_no_panic_at. Qed.
+
+(* ... and those states are the ones in which the run of the root calls decide (Cdcl/NoPanicDecide.v):
+   run_loop_dp is a twin of run_loop -- same control flow, the states evolve through the model's own encode,
+   s_propagate, prop_learn and resolve -- that computes one bit: whether the None branch of a call of decide
+   (the unreachable!()) is taken anywhere in the run.  For the run of the root, which is the whole solve when
+   the problem has no soft requirements, that bit is false: for every provider, problem, fuel, activity
+   function and completion order of the encoder's futures *)
+From Resolvo Require Import Cdcl.NoPanicDecide.
+Theorem C04_root_run_decide_never_panics : forall U P, WF U -> forall A a_ge a_conflict fuel efuel (a0 : A) order,
+  let st0 := mkS (estate0 cache0) [mkCl KRoot [(VRoot, true)]] ps0 [] [] a0 0 [] order true [] in
+  run_loop_dp U P A a_ge a_conflict fuel efuel st0 None 0 0 = false.
+Proof. exact root_run_decide_never_panics. Qed.
